@@ -129,5 +129,38 @@ def updatePoliciesSelf (e : Enf) (persist : Option Bool) (sec pt : String) (olds
             (e, true, !ok2)
         else (e, true, false)
 
+/-- `UpdateFilteredPoliciesSelf`: the old rules are what the adapter reports as replaced, so only a
+    persisting replica removes anything (a replica that does not persist adds the new rules and
+    reports `false`); returns (state, rule changed, error) -/
+def updateFilteredPoliciesSelf (e : Enf) (persist : Option Bool) (sec pt : String) (news : List Rule)
+    (fi : Nat) (vals : List String) : Enf × Bool × Bool :=
+  let olds : List Rule := if wantsPersist persist then
+      match e.adapter with
+      | some a => (a.rulesOf pt).filter (AdapterSt.lineMatches fi vals)
+      | none => []
+    else []
+  let (e, okA) := if wantsPersist persist
+    then e.adapterCall s!"UpdateFilteredPolicies({pt};{showRules news};{fi};{showRule vals})"
+      (fun a => news.foldl (fun a r => a.addLine pt r)
+        { a with lines := a.lines.filter (fun l => !(l.1 == pt && AdapterSt.lineMatches fi vals l.2)) })
+    else (e, true)
+  if !okA then (e, false, true)
+  else
+    match e.getStore sec pt with
+    | none => (e, false, true)
+    | some s =>
+      let (s1, aff) := s.removeMany olds
+      let s2 := (s1.addMany (e.prioOf sec pt) news).1
+      let e := e.setStore sec pt s2
+      let changed := !aff.isEmpty && !news.isEmpty
+      if !changed then (e, false, false)
+      else if sec == "g" then
+        let (e, ok1) := e.incrLinks false pt olds
+        if !ok1 then (e, true, true)
+        else
+          let (e, ok2) := e.incrLinks true pt news
+          (e, true, !ok2)
+      else (e, true, false)
+
 end Enf
 end Casbin
